@@ -781,9 +781,9 @@ type elem =
 | EProse of text
 | EHeading of nat * text
 | EBlank
-| EForeign of nat * text * text list
+| EForeign of nat * text * text list * text
 | EScrut of nat * text option * text list
-   * ((text * text list) * bline list) option
+   * ((text * text list) * bline list) option * text
 
 val fence : nat -> text
 
